@@ -14,7 +14,8 @@ import (
 //	call            x, err := <receiver>.MakeRequest…(…)              (the only call of a request function so far)
 //	iferr           if err != nil { return <nil|false|literal>, errors.Wrap(err, …) }   (err of the call; nothing else)
 //	assert          resp, ok := x.(T)                                  (x of the call)
-//	ifnotok-panic   if !ok { panic(…) }                                (ok of the assertion)
+//	ifnotok-error   if !ok { return <nil|false|literal>, errors.Errorf(<literal>, x) }   (ok of the assertion, x of the call; nothing else)
+//	ifnotok-panic   if !ok { panic(…) }                                (ok of the assertion; what tlgen emitted before D32)
 //	ret             return resp, nil                                   (resp of the assertion)
 //	ret-assert      return x.(T), nil                                  (x of the call)
 //	other:<kind>    anything else
@@ -150,6 +151,22 @@ func (sk *skel) stmtKind(st ast.Stmt) string {
 			}
 		case *ast.UnaryExpr: // !ok
 			if c.Op == token.NOT && sk.ok != "" && identName(c.X) == sk.ok {
+				if r, ok := s.Body.List[0].(*ast.ReturnStmt); ok && len(r.Results) == 2 && countCalls(r) == 1 {
+					zeroOK := false
+					switch z := r.Results[0].(type) {
+					case *ast.Ident:
+						zeroOK = z.Name == "nil" || z.Name == "false"
+					case *ast.BasicLit:
+						zeroOK = true
+					}
+					if call, ok := r.Results[1].(*ast.CallExpr); ok && zeroOK && len(call.Args) == 2 && identName(call.Args[1]) == sk.res {
+						if _, lit := call.Args[0].(*ast.BasicLit); lit {
+							if sel, ok := call.Fun.(*ast.SelectorExpr); ok && identName(sel.X) == "errors" && sel.Sel.Name == "Errorf" {
+								return "ifnotok-error"
+							}
+						}
+					}
+				}
 				if es, ok := s.Body.List[0].(*ast.ExprStmt); ok && countCalls(es) <= 3 && countRequestCalls(es) == 0 {
 					if call, ok := es.X.(*ast.CallExpr); ok && identName(call.Fun) == "panic" {
 						return "ifnotok-panic"
